@@ -91,6 +91,17 @@ def proof_obligations(prop):
     except Exception as e:   # translator failure is reported, never silently ignored
         gen_info = dict(error=str(e))
         gen_err = str(e)
+    # a translator that cannot read a piece of the CURRENT source emits its committed table for it (policy `fallback`, no alarm by
+    # itself: the differential tie still covers that piece) -- said on stdout, not only in the evidence file
+    if isinstance(gen_info, dict):
+        for m in (gen_info.get("missing") or []) if isinstance(gen_info.get("missing"), list) else []:
+            print("NOTE translator fallback (constants): %s not found in the source -- the committed value is used" % str(m)[:200])
+        for gname, gi in sorted(gen_info.items()):
+            fb = gi.get("fallback") if isinstance(gi, dict) else None
+            miss = gi.get("missing") if isinstance(gi, dict) else None
+            for item in (fb or []) + (["constant not found: %s" % m for m in (miss or [])]):
+                print("NOTE translator fallback (%s): %s -- this piece of the source is not read; its proofs run on the committed table, the correspondence check still covers it"
+                      % (gname, str(item)[:300]))
     vfile = os.path.join(build.COQ, "Properties", "Properties_%s.v" % prop)
     res = dict(obligations=0, discharged=0, theorems=[], assumptions={}, ok=False, log="", gen=gen_info,
                checker_cmd="coq_makefile -f _CoqProject -o Makefile && make -k -j16 Properties/Properties_%s.vo (coqc 8.16.1, full .vo)" % prop)
